@@ -238,6 +238,22 @@ class System:
                 else:
                     raise Unsupported("`is` on symbolic values")
                 return same if op == "is" else not same
+            isrec = lambda x: isinstance(x, tuple) and len(x) == 3 and x[0] == "rec"
+            if (isrec(a) or isrec(b)) and op in ("==", "!="):
+                if isrec(a) and isrec(b) and a[1] == b[1]:
+                    parts = []
+                    pa, pb = a[2].get("?", True), b[2].get("?", True)
+                    both = z3.And(zconst(self.truth(pa)), zconst(self.truth(pb)))
+                    for f in a[2]:
+                        if f != "?":
+                            parts.append(zconst(a[2][f]) == zconst(b[2][f]))
+                    eq = z3.Or(z3.And(both, *parts), z3.And(z3.Not(zconst(self.truth(pa))), z3.Not(zconst(self.truth(pb)))))
+                else:
+                    r, other = (a, b) if isrec(a) else (b, a)
+                    if other is not None:
+                        raise Unsupported("comparison of a record with a non-record")
+                    eq = z3.Not(zconst(self.truth(r[2].get("?", True))))
+                return eq if op == "==" else z3.Not(eq)
             if not z3.is_expr(a) and not z3.is_expr(b):
                 if a is None or b is None:
                     res = {"==": a is b, "!=": a is not b}.get(op)
